@@ -242,6 +242,8 @@ loadBinaryEdgeList(
     while (readBinaryValue(fileStream, vertex1)) {
         readBinaryValue(fileStream, vertex2);
         fromBinary(fileStream, label);
+        if (!fileStream) // truncated record: keep the complete records only
+            break;
 
         if (vertex1 >= returnedGraph.getSize())
             returnedGraph.resize(vertex1 + 1);
@@ -266,6 +268,8 @@ loadBinaryEdgeList(const std::string &fileName) {
     NoLabel label;
     while (readBinaryValue(fileStream, vertex1)) {
         readBinaryValue(fileStream, vertex2);
+        if (!fileStream) // truncated record: keep the complete records only
+            break;
 
         if (vertex1 >= returnedGraph.getSize())
             returnedGraph.resize(vertex1 + 1);
